@@ -602,6 +602,33 @@ fn st(o: &ProcOut) -> String {
     }
 }
 
+/// Remove `ESC [ … final-byte` sequences (cursor positioning, colours).
+fn strip_csi(l: &[u8]) -> Vec<u8> {
+    let mut out = Vec::new();
+    let mut i = 0;
+    while i < l.len() {
+        if l[i] == 0x1b && l.get(i + 1) == Some(&b'[') {
+            i += 2;
+            while i < l.len() && !(0x40..=0x7e).contains(&l[i]) {
+                i += 1;
+            }
+            i += 1;
+        } else {
+            out.push(l[i]);
+            i += 1;
+        }
+    }
+    out
+}
+
+/// A line of the shape main.rs's `message()` prints: a word right-aligned in 12 columns, a space,
+/// then text.
+pub fn is_status_line(l: &[u8]) -> bool {
+    let pad = l.iter().take_while(|b| **b == b' ').count();
+    let word = l[pad..].iter().take_while(|b| b.is_ascii_alphabetic() || **b == b'-').count();
+    word > 0 && l.get(pad + word) == Some(&b' ') && (pad + word == 12 || (pad == 0 && word > 12))
+}
+
 fn obs_c07(dir: &Path, src: &str, stack: bool) -> String {
     std::fs::write(dir.join("s.asm"), src).unwrap();
     let _ = std::fs::remove_file(dir.join("s.lc3"));
@@ -615,7 +642,10 @@ fn obs_c07(dir: &Path, src: &str, stack: bool) -> String {
     let mut a = vec!["run", "s.asm", "--minimal"];
     a.extend_from_slice(&feat);
     let r = spawn(dir, &a, &[], 5000);
-    let ran = String::from_utf8_lossy(&r.stdout).contains("Running emitted binary");
+    // `run` got past assembling iff it announced a second step: main.rs prints one status line of
+    // the shape `{left:>12} {right}` per step ("Assembling …", then "Running …"), whatever their wording
+    let status_lines = r.stdout.split(|b| *b == b'\n').filter(|l| is_status_line(l)).count();
+    let ran = status_lines >= 2;
     let run = if r.status == Some(101) { "panic" } else if ran { "ok" } else { "fail" };
     format!("check={} compile={} run={}", st(&c), st(&k), run)
 }
@@ -899,11 +929,17 @@ fn watch_session(dir: &Path, sources: &[String], stack: u8, same_stat: bool) -> 
             }
         }
     });
-    // wait for the watcher to be up ("press CTRL+C to exit")
+    // wait for the watcher to be up: it clears the screen (ESC [ 2 J) and announces itself with two
+    // status lines (whatever their wording)
+    const CLEAR: &[u8] = b"\x1b[2J";
+    let after_clear = |b: &[u8]| -> Option<usize> { (0..b.len().saturating_sub(CLEAR.len() - 1)).rev().find(|&i| &b[i..i + CLEAR.len()] == CLEAR) };
     let start = Instant::now();
     while start.elapsed() < Duration::from_millis(5000) {
-        if String::from_utf8_lossy(&buf.lock().unwrap()).contains("CTRL+C") {
-            break;
+        let b = buf.lock().unwrap().clone();
+        if let Some(i) = after_clear(&b) {
+            if b[i..].split(|c| *c == b'\n').filter(|l| is_status_line(strip_csi(l).as_slice())).count() >= 2 {
+                break;
+            }
         }
         std::thread::sleep(Duration::from_millis(20));
     }
@@ -939,17 +975,23 @@ fn watch_session(dir: &Path, sources: &[String], stack: u8, same_stat: bool) -> 
                 last_len = len;
                 quiet_since = Instant::now();
             }
-            let seen = String::from_utf8_lossy(&buf.lock().unwrap()[mark..]).contains("Re-checking");
+            let seen = after_clear(&buf.lock().unwrap()[mark..]).is_some();
             if (seen && quiet_since.elapsed() > Duration::from_millis(900)) || t0.elapsed() > Duration::from_millis(6000) {
                 break;
             }
         }
-        let text = String::from_utf8_lossy(&buf.lock().unwrap()[mark..]).to_string();
-        let v = match text.rfind("Re-checking") {
+        // a re-check clears the screen, prints status lines, then either one more status line
+        // (success) or a diagnostic (anything that is not a status line): no wording is relied on
+        let seg: Vec<u8> = buf.lock().unwrap()[mark..].to_vec();
+        let v = match after_clear(&seg) {
             None => "none",
             Some(i) => {
-                let tail = &text[i..];
-                if tail.contains("no errors found") { "ok" } else { "diag" }
+                let tail = &seg[i + CLEAR.len()..];
+                let diag = tail.split(|c| *c == b'\n').any(|l| {
+                    let l = strip_csi(l);
+                    !l.iter().all(|c| c.is_ascii_whitespace()) && !is_status_line(&l)
+                });
+                if diag { "diag" } else { "ok" }
             }
         };
         verdicts.push(v.to_string());
